@@ -453,30 +453,33 @@ def isFlush (m : Multi) (wh : Nat) : Bool :=
   | r0 :: rest =>
     rest.all fun r => !((r.start != r0.start && wh % 2 == 1) || (r.«end» != r0.«end» && (wh / 2) % 2 == 1))
 
+/-- `for _, r := range rows { g(r) }` with the heap threaded through -/
+def foldRows (g : Cells → Lin → Cells × Lin) (rows : List Lin) (h : Cells) : Cells × List Lin :=
+  rows.foldl (fun (acc : Cells × List Lin) r => ((g acc.1 r).1, acc.2 ++ [(g acc.1 r).2])) (h, [])
+
+/-- one row of the `seq.Start` pass of `Flush`:
+    `if r.Start()-start < 1 { continue }; r.SetSlice(append(fill.Repeat(n), sl...)); r.SetOffset(start)`
+    (`Repeat`'s array is exactly full, so the append allocates) -/
+def flushStartStep (cx : Ctx) (st : Int) (fill : UInt8) (h : Cells) (r : Lin) : Cells × Lin :=
+  if r.start - st < 1 then (h, r) else
+  ((h.ofList (List.replicate (r.start - st).toNat ⟨fill, 0⟩ ++ h.read r.s)
+      (cx.grow (r.start - st).toNat ((r.start - st).toNat + r.s.len)) zeroQL).1,
+   { r with s := (h.ofList (List.replicate (r.start - st).toNat ⟨fill, 0⟩ ++ h.read r.s)
+                    (cx.grow (r.start - st).toNat ((r.start - st).toNat + r.s.len)) zeroQL).2,
+            off := st })
+
+/-- one row of the `seq.End` pass:
+    `if end-r.End() < 1 { continue }; r.AppendQLetters(QLetter{L: fill}.Repeat(end - r.End())...)` -/
+def flushEndStep (cx : Ctx) (en : Int) (fill : UInt8) (h : Cells) (r : Lin) : Cells × Lin :=
+  if en - r.«end» < 1 then (h, r) else r.appendQL cx h (List.replicate (en - r.«end»).toNat ⟨fill, 0⟩)
+
 /-- `Flush(where, fill)` -/
 def flush (cx : Ctx) (h : Cells) (m : Multi) (wh : Nat) (fill : UInt8) : Cells × Multi :=
   if m.isFlush wh then (h, m) else
-  let (h1, m1) :=
-    if wh % 2 == 1 then
-      let st := m.start
-      let (h', rows') := m.rows.foldl (fun (acc : Cells × List Lin) r =>
-        if r.start - st < 1 then (acc.1, acc.2 ++ [r]) else
-        let n := (r.start - st).toNat
-        -- append(fill.Repeat(n), sl...): a new array (Repeat's array is exactly full)
-        let (h1, s') := acc.1.ofList (List.replicate n ⟨fill, 0⟩ ++ acc.1.read r.s)
-                          (cx.grow n (n + r.s.len)) zeroQL
-        (h1, acc.2 ++ [{ r with s := s', off := st }])) (h, [])
-      (h', { m with rows := rows' })
-    else (h, m)
-  if (wh / 2) % 2 == 1 then
-    let en := m1.«end»
-    let (h', rows') := m1.rows.foldl (fun (acc : Cells × List Lin) r =>
-      if en - r.«end» < 1 then (acc.1, acc.2 ++ [r]) else
-      let n := (en - r.«end»).toNat
-      let (h2, r') := r.appendQL cx acc.1 (List.replicate n ⟨fill, 0⟩)
-      (h2, acc.2 ++ [r'])) (h1, [])
-    (h', { m1 with rows := rows' })
-  else (h1, m1)
+  let p1 := if wh % 2 == 1 then foldRows (flushStartStep cx m.start fill) m.rows h else (h, m.rows)
+  let en := ({ m with rows := p1.2 } : Multi).«end»
+  let p2 := if (wh / 2) % 2 == 1 then foldRows (flushEndStep cx en fill) p1.2 p1.1 else p1
+  (p2.1, { m with rows := p2.2 })
 
 /-- one row of `Truncate`: after an error nothing more is done -/
 def truncStep (st en : Int) (acc : List Lin × Bool) (r : Lin) : List Lin × Bool :=
